@@ -92,6 +92,7 @@ type frame struct {
 	exits    []exit
 	loops    map[*ssa.BasicBlock]*loopInfo
 	debug    map[*ssa.BasicBlock][]debugRef
+	renamed  map[string]string // current local name -> the name it had on the pinned tree (contracts use that one)
 	deferred []*ssa.Defer
 	sortArg  *ssa.MakeInterface
 	deadMemo map[*ssa.Alloc]bool
@@ -774,8 +775,112 @@ func (f *frame) run(st *State, reach Term) {
 	_ = v
 }
 
+// localVars lists the named local variables (not parameters) a function declares, in source order.
+func localVars(fn *ssa.Function) []LocalVar {
+	seen := map[types.Object]bool{}
+	var objs []*types.Var
+	params := map[types.Object]bool{}
+	for _, p := range fn.Params {
+		if p.Object() != nil {
+			params[p.Object()] = true
+		}
+	}
+	for _, b := range fn.Blocks {
+		for _, in := range b.Instrs {
+			d, ok := in.(*ssa.DebugRef)
+			if !ok || d.Object() == nil {
+				continue
+			}
+			v, isVar := d.Object().(*types.Var)
+			if !isVar || v.IsField() || seen[v] || params[v] || v.Pkg() == nil || v.Parent() == nil || v.Parent() == v.Pkg().Scope() {
+				continue
+			}
+			seen[v] = true
+			objs = append(objs, v)
+		}
+	}
+	sort.Slice(objs, func(i, j int) bool { return objs[i].Pos() < objs[j].Pos() })
+	out := make([]LocalVar, len(objs))
+	for i, o := range objs {
+		out[i] = LocalVar{Name: o.Name(), Type: types.TypeString(o.Type(), nil)}
+	}
+	return out
+}
+
+// LocalVar is one entry of baseline/locals.json.
+type LocalVar struct {
+	Name string `json:"name"`
+	Type string `json:"type"`
+}
+
+// renamedLocals aligns the function's locals with those recorded on the pinned tree (same types, same
+// order; longest common subsequence when some were added or removed) and returns current name -> old
+// name for locals whose old name no longer exists: renaming a local must not orphan the contracts.
+func renamedLocals(old, cur []LocalVar) map[string]string {
+	if len(old) == 0 || len(cur) == 0 {
+		return nil
+	}
+	curNames := map[string]bool{}
+	for _, c := range cur {
+		curNames[c.Name] = true
+	}
+	n, m := len(old), len(cur)
+	score := make([][]int, n+1)
+	for i := range score {
+		score[i] = make([]int, m+1)
+	}
+	for i := n - 1; i >= 0; i-- {
+		for j := m - 1; j >= 0; j-- {
+			best := score[i+1][j]
+			if score[i][j+1] > best {
+				best = score[i][j+1]
+			}
+			if old[i].Type == cur[j].Type {
+				s := score[i+1][j+1] + 1
+				if old[i].Name == cur[j].Name {
+					s += 2
+				}
+				if s > best {
+					best = s
+				}
+			}
+			score[i][j] = best
+		}
+	}
+	out := map[string]string{}
+	i, j := 0, 0
+	for i < n && j < m {
+		match := 0
+		if old[i].Type == cur[j].Type {
+			match = score[i+1][j+1] + 1
+			if old[i].Name == cur[j].Name {
+				match += 2
+			}
+		}
+		switch {
+		case match > 0 && match == score[i][j]:
+			if old[i].Name != cur[j].Name && !curNames[old[i].Name] {
+				out[cur[j].Name] = old[i].Name
+			}
+			i++
+			j++
+		case score[i+1][j] == score[i][j]:
+			i++
+		default:
+			j++
+		}
+	}
+	return out
+}
+
 func (f *frame) collectDebug() {
 	f.debug = map[*ssa.BasicBlock][]debugRef{}
+	if f.isRoot && f.v.eng.baseLocals != nil {
+		f.renamed = renamedLocals(f.v.eng.baseLocals[f.v.fc.Key], localVars(f.fn))
+		for cur, old := range f.renamed {
+			f.v.note("local variable %s of %s is the one the contracts call %s (renamed since the pinned tree)", cur, f.v.fc.Key, old)
+		}
+	}
 	// variables that live in an Alloc: every mention of them means the Alloc's current content
 	home := map[types.Object]*ssa.Alloc{}
 	for _, b := range f.fn.Blocks {
@@ -794,6 +899,9 @@ func (f *frame) collectDebug() {
 					continue // a field name in a selector, not a variable
 				}
 				if name, ok := identOf(d.Expr); ok {
+					if old, was := f.renamed[name]; was {
+						name = old
+					}
 					if a, lives := home[d.Object()]; lives && !d.IsAddr {
 						f.debug[b] = append(f.debug[b], debugRef{name: name, val: a, isAddr: true, idx: i})
 						continue
